@@ -4,5 +4,7 @@ CONSTANTS
   MaxStmts = 0
   MaxBeginFails = 0
   MaxLog = 7
+  BeginOk = {"ok"}
+  Ctx = FALSE
 INVARIANTS TypeOK AgreeInv
 CHECK_DEADLOCK FALSE
